@@ -35,13 +35,15 @@ theorem input_changes_exact (w : Wiring) (hw : RouterOK w) (react : React Val) (
 /-- a skipped component answers with no changes, so skipping propagates. -/
 theorem skip_answers_nothing (react : React Val) (c : Comp) (t : SimTime) :
     answerOf react (.skip c t : Dispatch Val) = [] := by
-  sorry
+  rfl
 
 /-- components that are not downstream of a root are not touched at all (restated from C01). -/
 theorem untouched_outside_extent (w : Wiring) (react : React Val) (t : SimTime) (roots : List Comp)
     (s : TickSys Val) (hs : s.Reachable w react t roots) (c : Comp) (hc : c ∉ extent w roots) :
     dispatchOf s.trace c = none := by
-  sorry
+  rw [dispatchOf_eq_none_iff]
+  intro d hd hdc
+  exact hc (hdc ▸ (hs.inv.pre.disp_ext d hd).1)
 
 /-- **schedule independence of one tick** (also the core of C08): two complete runs of the
 same tick — any two answer orders — give every component the same dispatch (same kind, same
@@ -60,7 +62,14 @@ theorem tick_deterministic (w : Wiring) (hw : RouterOK w) (hacyc : w.Acyclic)
 /-- every well-formed wiring with one source per input port satisfies the router facts
 the ticker relies on (they are the C16 theorems). -/
 theorem routerOK_of_wf (w : Wiring) (h : w.WF) (h1 : w.OneSource) : RouterOK w := by
-  sorry
+  exact
+    { oneSource := h1
+      route_exact := fun a ch hch b q v => route_exact w h h1 a ch hch b q v
+      route_wf := fun a ch =>
+        ⟨(route_wf w a ch).1, fun e he =>
+          ⟨(route_wf w a ch).2 e he,
+            route_nonempty w a ch e.1 e.2 (alookup_eq_some_of_mem (route_wf w a ch).1 he)⟩⟩
+      ups_edge := fun b us hu a => mem_ups_iff w h b us hu a }
 
 variable [DecidableEq Val]
 
@@ -68,17 +77,23 @@ variable [DecidableEq Val]
 and was absent from, or different in, the previous report. -/
 theorem changed_iff (last outs : List (Port × Val)) (p : Port) (v : Val) :
     (p, v) ∈ outChanges last outs ↔ (p, v) ∈ outs ∧ alookup last p ≠ some v := by
-  sorry
+  simp only [outChanges, List.mem_filter]
+  apply and_congr_right
+  intro _
+  cases h : alookup last p with
+  | none => simp
+  | some v' => simp
 
 /-- the device is given its previous inputs overlaid with the changes. -/
 theorem merge_lookup (dc : DevComp Val) (changes : List (Port × Val)) (q : Port) :
     alookup (dc.merge changes) q = (alookup (aupdate [] changes) q).orElse (fun _ => alookup dc.deviceInputs q) := by
-  sorry
+  have _ : DecidableEq Val := inferInstance -- instance not needed: holds for every `Val`
+  exact alookup_aupdate _ _ _
 
 theorem onTick_state (dc : DevComp Val) (changes outs : List (Port × Val)) :
     (dc.onTick changes outs).1.deviceInputs = dc.merge changes ∧
     (dc.onTick changes outs).1.lastOutputs = outs ∧
     (dc.onTick changes outs).2 = outChanges dc.lastOutputs outs := by
-  sorry
+  exact ⟨rfl, rfl, rfl⟩
 
 end Tickit
